@@ -662,7 +662,8 @@ static inline void ABTI_ythread_schedule(ABTI_global *p_global,
                                          ABTI_thread *p_thread)
 {
     ABTI_xstream *p_local_xstream = *pp_local_xstream;
-    const int request_op = ABTI_thread_handle_request(p_thread, ABT_TRUE);
+    const int request_op =
+        ABTI_thread_handle_request(p_local_xstream, p_thread, ABT_TRUE);
     if (ABTU_likely(request_op == ABTI_THREAD_HANDLE_REQUEST_NONE)) {
         /* Execute p_thread. */
         ABTI_ythread *p_ythread = ABTI_thread_get_ythread_or_null(p_thread);
